@@ -1,3 +1,5 @@
+use alloc::vec;
+
 use buggy::{BugExt as _, bug};
 use heapless::Vec;
 use serde::{Deserialize, Serialize};
@@ -440,6 +442,11 @@ impl SyncResponder {
         let mut collected: Vec<Location, SEGMENT_BUFFER_MAX> = Vec::new();
         let mut prev_max_cut: Option<MaxCut> = None;
 
+        // Locations the peer is known to have that the heads queue could
+        // not keep: a segment that continues past a branch point is queued
+        // once, by its highest entry point, with a single covered flag.
+        let mut covered_marks: vec::Vec<Location> = vec::Vec::new();
+
         while let Some((head, covered)) = heads.pop_covered()? {
             // Flush pending entries whose shortest_max_cut (stored as max_cut)
             // is above the just-popped entry's longest_max_cut. No future
@@ -460,7 +467,7 @@ impl SyncResponder {
                 // Propagate coverage to priors so they'll be processed as
                 // covered if not yet visited.
                 for prior in segment.prior() {
-                    heads.push_covered(prior, true)?;
+                    covered_marks.extend(heads.push_covered_reporting(prior, true)?);
                 }
                 // Early termination: if all remaining heads are covered, stop.
                 // Every remaining path leads to segments the peer already has.
@@ -483,24 +490,33 @@ impl SyncResponder {
             // Look for a have_location in this segment: same SegmentIndex
             // with max_cut within shortest_max_cut..=longest_max_cut.
             let shortest = segment.shortest_max_cut();
-            let mut best_have: Option<(usize, Location)> = None;
+            let mut best_have: Option<Location> = None;
             for scan in have_cursor..have_locations.len() {
                 let hloc = have_locations[scan];
                 if hloc.max_cut < shortest {
                     break; // rest are even lower, can't be in this segment
                 }
                 if hloc.segment == head.segment {
-                    best_have = Some((scan, hloc));
+                    best_have = Some(hloc);
                     break; // sorted in descending order, so first match is the highest max_cut
                 }
             }
+            // Coverage of this segment that the queue dropped counts like a
+            // have_location.
+            for mark in &covered_marks {
+                if mark.segment == head.segment
+                    && best_have.is_none_or(|hloc| hloc.max_cut < mark.max_cut)
+                {
+                    best_have = Some(*mark);
+                }
+            }
 
-            if let Some((_idx, hloc)) = best_have {
+            if let Some(hloc) = best_have {
                 // Case 2: Contains a have_location. Push priors as
                 // covered — the peer has at least part of this segment,
                 // so its priors are reachable.
                 for prior in segment.prior() {
-                    heads.push_covered(prior, true)?;
+                    covered_marks.extend(heads.push_covered_reporting(prior, true)?);
                 }
 
                 // If the peer doesn't have the whole segment (have_location
@@ -523,7 +539,7 @@ impl SyncResponder {
                 // continue traversal through priors.
                 pending.push(segment.first_location())?;
                 for prior in segment.prior() {
-                    heads.push(prior)?;
+                    covered_marks.extend(heads.push_covered_reporting(prior, false)?);
                 }
             }
 
